@@ -68,6 +68,10 @@ func genC15(r *simrt.RNG, tier string, variant int) Plan {
 		cause = endCauses[variant%len(endCauses)]
 	}
 	p.Faults = []Fault{{Kind: cause, Client: 0, Pipe: 0, Dir: Pick(r, []string{"c2s", "s2c"}), Frame: -1, Phase: Pick(r, []int{0, 2, 10, 50})}}
+	if r.Bool(0.3) {
+		p.Params["late_big"] = Pick(r, []int64{5000, 20000, 70000})
+		p.Params["late_big_yields"] = int64(1 + r.Intn(12))
+	}
 	if r.Bool(0.25) {
 		// the peer stops reading: server writes on connection 0 block (full send
 		// buffer) from now on; the connection must still be let go of
@@ -226,6 +230,14 @@ func runC15(e *Env, p *Plan) {
 	}
 	if running > 0 {
 		e.Probe("handlers-in-progress-at-end")
+	}
+	if p.Param("late_big", 0) > 0 {
+		// a large request is on its way to the server when the connection ends
+		w.Start(Op{Kind: "callbig", Client: 0, Tok: 7000, N: int(p.Param("late_big", 0))}, nil)
+		for i := 0; i < int(p.Param("late_big_yields", 3)); i++ {
+			simrt.Yield("late-big-delay")
+		}
+		e.Probe("large-request-in-transit-at-end")
 	}
 	simrt.Rec("end-cause", f.Kind, "", int64(running))
 	switch f.Kind {
